@@ -14,7 +14,7 @@
     composite keys, no-PK tables, changes at block edges) are executed the same way; the recorded
     events are validated by TLC (TraceDiff.tla) against the set-theoretic definition only.
 
-quick   : all 9^4 pairs on 4 keys at B=3 (S=85) and at B=1 (S=255, up to 4 blocks a side), 300 recorded pairs
+quick   : all 9^4 pairs on 4 keys at B=3 (S=85) and at B=1 (S=255, up to 4 blocks a side), 200 recorded pairs
 thorough: all 9^6 pairs on 6 keys at B=3 (S=85) and at B=1 (S=255, up to 6 blocks a side), 4000 recorded pairs"""
 import json, os, threading, time
 import vlib
@@ -25,7 +25,7 @@ ENGINE = "diff"
 # (N, B) universes per tier; each is cut into slices (content id of key 1 in t1 / t2) that run as
 # separate TLC processes, because TLC computes initial states with a single thread
 TIERS = {
-    "quick": {"universes": [(4, 3, 1), (4, 1, 1)], "rec": 300},
+    "quick": {"universes": [(4, 3, 1), (4, 1, 1)], "rec": 200},
     "thorough": {"universes": [(6, 3, 9), (6, 1, 9)], "rec": 4000},
 }
 
@@ -192,9 +192,18 @@ def run(tier, seed):
     t0 = time.time()
     out = vlib.replay(ENGINE, bulk)
     vlib.absorb_replay(v, out, ENGINE, bulk, crash_sig=crash_sig)
-    out2 = vlib.replay(ENGINE, risky)
-    vlib.absorb_replay(v, out2, ENGINE, risky, crash_sig=crash_sig)
-    _merge(out, out2)
+    # vlib.replay gives up on a shard after 200 child restarts: feed the pairs that may kill their
+    # child in portions of at most 100 per shard
+    with open(risky) as f:
+        rlines = f.readlines()
+    step = 100 * vlib.NCPU
+    for c in range(0, len(rlines), step):
+        part = "%s.%d" % (risky, c // step)
+        with open(part, "w") as f:
+            f.writelines(rlines[c:c + step])
+        out2 = vlib.replay(ENGINE, part)
+        vlib.absorb_replay(v, out2, ENGINE, part, crash_sig=crash_sig)
+        _merge(out, out2)
     vlib.log("replayed %d pairs on the real diff in %.1fs" % (out.total, time.time() - t0))
     if out.total != states:
         raise vlib.Inconclusive("replayed %d of %d pairs" % (out.total, states))
